@@ -157,6 +157,12 @@ func c05Objects(o *wout, shard, n int, thorough bool) {
 			obj.Intersects(obj)
 			obj.JSON()
 			obj.Spatial().IntersectsRect(callRect)
+			pt := geojson.NewPoint(geometry.Point{X: 1, Y: 1})
+			obj.Contains(pt)
+			obj.Intersects(pt)
+			pt.Within(obj)
+			pt.Intersects(obj)
+			obj.Distance(pt)
 		}); f != "" {
 			o.fail("build-and-query", mk(), "constructs and answers within its budget", f)
 		}
